@@ -319,7 +319,7 @@ func extractOpTables(t *Tree, pkg string) *opTables {
 	}
 
 	// ---- condOp
-	if f := pk.Func("condOp"); f != nil {
+	if f := pkgFunc(pk, "condOp"); f != nil {
 		for _, op := range condOps {
 			for _, l := range allTags {
 				for _, r := range allTags {
@@ -340,7 +340,7 @@ func extractOpTables(t *Tree, pkg string) *opTables {
 		}
 	}
 	// ---- arithmetic expression
-	if f := pk.Func("RunArithmeticExpr"); f != nil {
+	if f := pkgFunc(pk, "RunArithmeticExpr"); f != nil {
 		for _, op := range arithOps {
 			for _, l := range allTags {
 				for _, r := range allTags {
@@ -362,7 +362,7 @@ func extractOpTables(t *Tree, pkg string) *opTables {
 		}
 	}
 	// ---- compound assignment arithmetic
-	if f := pk.Func("runAssignArith"); f != nil {
+	if f := pkgFunc(pk, "runAssignArith"); f != nil {
 		for _, op := range assignOps {
 			for _, l := range allTags {
 				for _, r := range allTags {
@@ -405,7 +405,7 @@ func extractOpTables(t *Tree, pkg string) *opTables {
 		}
 	}
 	// ---- unary: arithmetic signs by tag
-	if f := pk.Func("RunUnaryExpr"); f != nil {
+	if f := pkgFunc(pk, "RunUnaryExpr"); f != nil {
 		goTypeOf := map[string]string{"Bool": "bool", "Int": "int64", "Float": "float64", "String": "string", "List": "[]any", "Map": "map[string]any"}
 		for _, op := range []string{"SUB", "ADD"} {
 			for _, l := range allTags {
@@ -452,7 +452,7 @@ func extractOpTables(t *Tree, pkg string) *opTables {
 		}
 	}
 	// ---- membership
-	if f := pk.Func("RunInExpr"); f != nil {
+	if f := pkgFunc(pk, "RunInExpr"); f != nil {
 		goTypeOf := map[string]string{"Bool": "bool", "Int": "int64", "Float": "float64", "String": "string", "List": "[]any", "Map": "map[string]any"}
 		for _, l := range allTags {
 			for _, r := range allTags {
@@ -481,7 +481,7 @@ func extractOpTables(t *Tree, pkg string) *opTables {
 		}
 	}
 	// ---- assign2arithOp
-	if f := pk.Func("assign2arithOp"); f != nil {
+	if f := pkgFunc(pk, "assign2arithOp"); f != nil {
 		for _, op := range append(append([]string{}, assignOps...), arithOps...) {
 			cfg := &specCfg{}
 			outs, _ := cfg.run(f, []sval{dt(op)})
@@ -489,7 +489,7 @@ func extractOpTables(t *Tree, pkg string) *opTables {
 		}
 	}
 	// ---- truthiness
-	if f := pk.Func("condTrue"); f != nil {
+	if f := pkgFunc(pk, "condTrue"); f != nil {
 		for _, l := range allTags {
 			cfg := &specCfg{}
 			var outs []specOutcome
